@@ -4,11 +4,52 @@ From GP Require Import Base NgModel NgIoProofs NgExec NgRoundtrip NgFile NgPrefi
 From Coq Require Import Lia ZifyBool ZifyNat.
 Open Scope Z_scope.
 
+(* a packet block cut short, only the first link type wanted *)
+Lemma trunc_epb_u ro F g s ifid ts caplen len data o k :
+  ro_mixed ro = false -> r_big s = false -> (length (popts_to_options o) + 2 < F)%nat ->
+  wf_packet (r_ifaces s) ifid ts caplen len data o ->
+  (0 < k < length (enc_epb ifid ts caplen len data o))%nat ->
+  exists s', exec (readPacketG ro F (S g)) s (firstn k (enc_epb ifid ts caplen len data o)) = ((s', Err 2), []).
+Proof.
+  intros Hmix Hbig HF Hwf Hk.
+  pose proof (enc_epb_shape _ _ _ _ _ _ _ Hwf) as (Hshape & HL & _). cbv zeta in *.
+  destruct (hdr_epb_x ro F g s ifid ts caplen len data o Hbig Hwf) as (i & s2 & Ei & P1 & P2 & P3 & P4 & P5 & P6 & P7 & P8 & Hshort & Hx).
+  cbv zeta in *.
+  set (L := zlen (opts_enc (popts_to_options o)) + 32 + zlen data + pad4 (zlen data)) in *.
+  set (b20 := le_bytes 4 ifid ++ (le_bytes 4 (u32 (ts / 4294967296)) ++ le_bytes 4 (u32 ts)) ++ le_bytes 4 caplen ++ le_bytes 4 len) in *.
+  set (tf := data ++ zeros (pad4 (zlen data)) ++ opts_enc (popts_to_options o) ++ le_bytes 4 L) in *.
+  assert (length b20 = 20%nat) as Hb20 by (unfold b20; rewrite !app_length, !le_bytes_length; reflexivity).
+  assert (zlen tf = L - 28) as Htf.
+  { unfold tf. pose proof (pad4_range (zlen data)). rewrite !zlen_app, zlen_le_bytes, zlen_zeros by lia. subst L. lia. }
+  rewrite Hshape in *. rewrite !app_length, !le_bytes_length, Hb20 in Hk. fold tf in Hk.
+  destruct (Nat.lt_ge_cases k 8) as [H8|H8].
+  - apply rpg_short. rewrite zlen_firstn by (rewrite !app_length, !le_bytes_length; lia). lia.
+  - rewrite (app_assoc (le_bytes 4 6)). rewrite firstn_app_split by (rewrite app_length, !le_bytes_length; lia).
+    rewrite app_length, !le_bytes_length. rewrite <- app_assoc. cbn [Nat.add].
+    destruct (Nat.lt_ge_cases k 28) as [H28|H28].
+    + destruct (Hshort (firstn (k - 8) (b20 ++ tf))) as (s' & E).
+      { unfold zlen. rewrite firstn_length. lia. }
+      exists s'. unfold readPacketG. rewrite exec_bind, E. reflexivity.
+    + rewrite firstn_app_split by lia. rewrite Hb20. replace (k - 8 - 20)%nat with (k - 28)%nat by lia.
+      unfold readPacketG. rewrite exec_bind, Hx, Hmix.
+      destruct (negb (if_link i =? r_link s)) eqn:El.
+      * rewrite exec_disc_short by (unfold zlen in *; rewrite firstn_length; lia). eauto.
+      * (* wanted: the rest of the read is cut *)
+        destruct (exec_epb_gen ro F g s ifid ts caplen len data o []) as (sf & i' & _ & Efull & _); auto.
+        { right. split; [exact Hmix|]. intros j Ej. rewrite Ej in Ei. inversion Ei; subst j.
+          destruct (if_link i =? r_link s) eqn:E2; [lia|discriminate]. }
+        rewrite app_nil_r in Efull. rewrite Hshape in Efull. repeat rewrite <- app_assoc in Efull. fold b20 in Efull.
+        unfold readPacketG in Efull. rewrite exec_bind in Efull.
+        change (data ++ zeros (pad4 (zlen data)) ++ opts_enc (popts_to_options o) ++ le_bytes 4 L) with tf in Efull.
+        rewrite Hx, Hmix in Efull. cbv iota in Efull.
+        eapply trunc_all; [apply eof2_rp_tail|exact Efull|]. unfold zlen in Htf. lia.
+Qed.
+
 Definition not_packet (op : wop) : Prop := match op with WPacket _ _ _ _ _ _ => False | _ => True end.
 
 Theorem prefix_file_u ro sec i0 ops pre nxt post k :
   ro_mixed ro = false -> sec_ok sec -> ops_ok [] (WAddIf i0 :: ops) -> zlen ops < 4294967290 ->
-  ops = pre ++ nxt :: post -> (k < length (enc_op nxt))%nat -> (k = 0%nat \/ not_packet nxt) ->
+  ops = pre ++ nxt :: post -> (k < length (enc_op nxt))%nat ->
   let file := write_file sec i0 ops in
   forall F, (fuel_for (zlen file) <= F)%nat ->
   let cut := (length (enc_shb sec) + length (enc_idb i0) + length (enc_ops pre) + k)%nat in
@@ -17,7 +58,7 @@ Theorem prefix_file_u ro sec i0 ops pre nxt post k :
   fst (fst (fst r)) = 0 /\ snd (fst (fst r)) = fst e
   /\ snd (fst r) = (if snd e =? 3 then 3 else if (k =? 0)%nat then 1 else 2).
 Proof.
-  intros Hmix Hsec Hok Hb Hsplit Hk Hnp. cbv zeta. intros F HFge.
+  intros Hmix Hsec Hok Hb Hsplit Hk. cbv zeta. intros F HFge.
   destruct (write_file_shape sec i0 ops Hok Hb) as (Hfile & _). rewrite Hfile in *.
   destruct (script_sizes (WAddIf i0 :: ops) [] Hok) as (Sz1 & Sz2).
   cbn [ops_ok app] in Hok. destruct Hok as (Hw & Hok).
@@ -55,10 +96,12 @@ Proof.
   assert (sinvu (wi_link i0) [i0] s0) as Hs0 by (split; [split; [exact Q1|rewrite Q2; reflexivity]|exact Q3]).
   assert (tail_ends_u ro F (wi_link i0) (ws_after [i0] pre) (firstn k (enc_op nxt)) (if (k =? 0)%nat then 1 else 2)) as Htail.
   { destruct k as [|k']; [cbn [firstn Nat.eqb]; apply tail_ends_u_nil|]. cbn [Nat.eqb].
-    destruct Hnp as [Hk0|Hnp]; [discriminate|].
     intros s g ((Hbig & Hifs) & Hlk) Hg. destruct g as [|g]; [lia|].
-    destruct nxt as [w|ifid ts caplen len data o|ifid st|ty pl]; cbn [ops_ok enc_op not_packet] in *; try contradiction.
+    inversion HFnp as [|? ? HFn _]; subst.
+    destruct nxt as [w|ifid ts caplen len data o|ifid st|ty pl]; cbn [ops_ok enc_op] in *.
     - destruct Hoknxt as (Hw' & _). destruct (trunc_idb ro F g s w (S k') Hbig Hw') as (s' & E); [pose proof (idb_options_len w); lia|lia|eauto].
+    - destruct Hoknxt as (Hwf & _). rewrite <- Hifs in Hwf. apply wf_packet_clear in Hwf.
+      destruct (trunc_epb_u ro F g s ifid ts caplen len data o (S k') Hmix Hbig HFn Hwf) as (s' & E); [lia|eauto].
     - destruct Hoknxt as (Hid & Hid2 & _).
       destruct (nth_iface _ s ifid Hifs Hid) as (i & Ei).
       destruct (sinv_link _ s ifid i Hifs Ei) as (_ & Hm & Hd).
